@@ -206,7 +206,7 @@ GRIDS = {
 }
 
 
-def _mk_gridded(name, shuffle=True):
+def _mk_gridded(name, shuffle=True, variant=0):
     from astropy.nddata import NDData
     from photutils.psf import GriddedPSFModel
     xg, yg = GRIDS[name]
@@ -219,6 +219,10 @@ def _mk_gridded(name, shuffle=True):
     data = []
     for i, (x, y) in enumerate(pos):
         g = np.exp(-(xx ** 2 + yy ** 2) / (4.0 + 0.3 * x + 0.1 * y))
+        if variant:
+            # a second model on the same grid with different ePSF data
+            g = np.exp(-((xx - 0.5) ** 2 + 2.0 * yy ** 2)
+                       / (7.0 + 0.2 * y + 0.05 * x))
         data.append(g / g.sum())
     nd = NDData(np.array(data), meta=dict(grid_xypos=pos, oversampling=1))
     return GriddedPSFModel(nd), pos, xg, yg
@@ -296,16 +300,8 @@ def _run_grid(case):
     return dict(stats=st, findings=f, samples=samples, nontrivial=cnt['n'])
 
 
-def _grid_concrete(name, x0, y0):
-    """Real splines at concrete positions (replay of symbolic findings)."""
-    m, pos, xg, yg = _mk_gridded(name)
-    yy, xx = np.mgrid[-2:3, -2:3]
-    with warnings.catch_warnings():
-        warnings.simplefilter('ignore')
-        try:
-            got = m.evaluate(xx + x0, yy + y0, 1.0, x0, y0)
-        except (IndexError, KeyError, ValueError) as e:
-            return f'grid {name} at ({x0},{y0}): evaluate raised {e!r}'
+def _blend_expect(m, xg, yg, x0, y0):
+    """Bilinear blend of the model's own stored ePSFs (5x5 centre samples)."""
     cx = min(max(x0, xg[0]), xg[-1])
     cy = min(max(y0, yg[0]), yg[-1])
     i = max(0, min(np.searchsorted(xg, cx, side='right') - 1, len(xg) - 2))
@@ -321,13 +317,28 @@ def _grid_concrete(name, x0, y0):
                         (xa, yb, (xb - cx) * (cy - ya)),
                         (xb, yb, (cx - xa) * (cy - ya))]:
         exp = exp + m.data[idx[(px, py)]][c - 2:c + 3, c - 2:c + 3] * w / n
+    return exp
+
+
+def _grid_concrete(name, x0, y0):
+    """Real splines at concrete positions (replay of symbolic findings)."""
+    m, pos, xg, yg = _mk_gridded(name)
+    yy, xx = np.mgrid[-2:3, -2:3]
+    with warnings.catch_warnings():
+        warnings.simplefilter('ignore')
+        try:
+            got = m.evaluate(xx + x0, yy + y0, 1.0, x0, y0)
+        except (IndexError, KeyError, ValueError) as e:
+            return f'grid {name} at ({x0},{y0}): evaluate raised {e!r}'
+    exp = _blend_expect(m, xg, yg, x0, y0)
     if not np.allclose(got, exp, rtol=1e-8, atol=1e-12):
         return (f'grid {name} at ({x0},{y0}): max deviation from the '
                 f'bilinear blend {np.max(np.abs(got - exp)):.3g}')
     return None
 
 
-HIST_OPS = ['eval-a', 'eval-b', 'eval-c', 'copy', 'deepcopy']
+HIST_OPS = ['eval-a', 'eval-b', 'eval-c', 'copy', 'deepcopy', 'other-a',
+            'other-b']
 
 
 def _hist_check(name, hist):
@@ -341,11 +352,24 @@ def _hist_check(name, hist):
         with warnings.catch_warnings():
             warnings.simplefilter('ignore')
             return model.evaluate(xx + x0, yy + y0, 2.0, x0, y0)
+    other = None
     for k, op in enumerate(hist):
         if op == 'copy':
             m = m.copy()
         elif op == 'deepcopy':
             m = copy.deepcopy(m)
+        elif op.startswith('other'):
+            # a second model instance on the same grid, different ePSF data:
+            # each instance must return its own stored ePSFs
+            if other is None:
+                other, *_ = _mk_gridded(name, variant=1)
+            key = op[-1]
+            got = ev(other, key)
+            exp = 2.0 * _blend_expect(other, xg, yg, *P[key])
+            if not np.allclose(got, exp, rtol=1e-8, atol=1e-12):
+                return (f'second model (same grid, other data) at {P[key]} '
+                        f'after {hist[:k]} is not the blend of its own '
+                        f'stored ePSFs')
         else:
             key = op[-1]
             got = ev(m, key)
@@ -354,6 +378,10 @@ def _hist_check(name, hist):
             if not np.array_equal(got, exp):
                 return (f'evaluation at {P[key]} after {hist[:k]} differs '
                         f'from a fresh model')
+            exp2 = 2.0 * _blend_expect(m, xg, yg, *P[key])
+            if not np.allclose(got, exp2, rtol=1e-8, atol=1e-12):
+                return (f'evaluation at {P[key]} after {hist[:k]} is not the '
+                        f'blend of the model\'s own stored ePSFs')
     return None
 
 
